@@ -15,6 +15,7 @@ import z3
 from symx import ctx, astx
 from symx.proxy import SR, SB, ite, toreal, tz, Unsupported
 from symx.shim import NumpyShim, MathShim, make_builtins, oarr, SymNd, SYM_BUILTINS, _map
+from symx.proxy import is_sym as is_sym_
 
 POW_FACTS = "p=(N/2)**(1/Jdes): 1<p<=N/2; Jdes=1 => p=N/2; Jdes>=2 => p*p<=N/2; Jdes>=3 => p^3<=N/2"
 
@@ -47,7 +48,13 @@ def add_pow_facts(W, cfg):
 
 
 def glob_for(module, extra=None):
+    from symx.shim import SymDict
     g = dict(module.__dict__)
+    for _n, _o in list(g.items()):           # module-level tables/caches: private copies (symbolic keys allowed)
+        if not _n.startswith("__") and type(_o) is dict:
+            g[_n] = SymDict(_o)
+        elif not _n.startswith("__") and isinstance(_o, (list, set)):
+            g[_n] = type(_o)(_o)
     NP = NumpyShim(**(extra or {}).pop("np_over", {})) if extra and "np_over" in extra else NumpyShim()
     g.update(np=NP, math=MathShim())
     g.update(SYM_BUILTINS)
@@ -311,7 +318,13 @@ class DView:
         run = W.run
         gens = getattr(run, "gen_aranges", [])
         items = list(D0) if not isinstance(D0, rnp.ndarray) else list(D0.reshape(-1))
-        if any(isinstance(e, astx.Guarded) for e in items) or not gens:
+        if items and all(isinstance(e, (int, rnp.integer)) for e in items):
+            # a concrete start array (e.g. served from a memo table): its length must be the reported count
+            self.kind = "unrolled"
+            for i, e in enumerate(items):
+                self.tr.append((z3.BoolVal(True), z3.IntVal(i), z3.IntVal(int(e))))
+            self.len_ok = (self.count == len(items))
+        elif any(isinstance(e, astx.Guarded) for e in items) or not gens:
             self.kind = "unrolled"
             for i, e in enumerate(items):
                 g, v = (e.g, e.v) if isinstance(e, astx.Guarded) else (z3.BoolVal(True), e)
@@ -553,7 +566,10 @@ ALIAS = {"C04/K<=N-L+1": "C04/K=nearest(capped)", "C02/plan-K-is-step-K": "C02/K
 
 
 # ============================================================================ vectorized_ltf_plan
-def vec_step(W, cfg):
+PRIOR = dict(N=16, fs=1.0, olap=0.5, bmin=1.0, Lmin=2, Jdes=3, Kdes=2)
+
+
+def vec_step(W, cfg, fork_ifs=False, prior=False):
     """phase 1 on a generic adjacent pair (g0,g1=rho*g0) of the lookup grid, one walker iteration from an arbitrary state, phase 3"""
     Sm = S()
     fd = astx.get_function_ast(Sm.vectorized_ltf_plan)
@@ -564,16 +580,26 @@ def vec_step(W, cfg):
     st = {}
 
     def logspace(a, b, n, **k):
+        if not (is_sym_(a) or is_sym_(b)):
+            return rnp.logspace(a, b, n, **k)
         st["n"] = n
         return grid.copy().view(SymNd)
 
     def searchsorted(arr, v, side="left"):
+        if not (is_sym_(v) or (isinstance(arr, rnp.ndarray) and arr.dtype == object)):
+            return rnp.searchsorted(arr, v, side=side)
         # contract (side='left'): arr[idx-1] < v <= arr[idx]; the generic pair is (idx-1, idx) = (0, 1)
         W.assume(arr[0] < v); W.assume(v <= arr[1])
         st["searched"] = (arr, v, side)
         return 1
     I = astx.Interp(glob_for(Sm, {"np_over": dict(logspace=logspace, searchsorted=searchsorted)}))
+    W.run.fork_masks = False     # phase 1 masks stay symbolic (a[mask] = b[mask]/c merges element-wise)
+    if prior:
+        # an earlier plan in the same process (another record length): whatever it leaves at module level must not leak
+        astx._Closure(I, fd, {})(**PRIOR)
+        I.trace.clear(); I.unwind.clear()
     env = I.block(pre, {"args": dict(cfg)})
+    I.fork_ifs = fork_ifs        # the walker's own `if`s fork (simpler per-path queries); phase 1 is branch-free array code
     add_pow_facts(W, cfg)
     # the grid lies inside [fmin, fmax]; only the looked-up point g1 matters
     W.assume(grid[1] >= env["fmin"]); W.assume(grid[1] <= env["fmax"])
@@ -586,11 +612,16 @@ def vec_step(W, cfg):
     return I, env, env1, post, rho, st
 
 
-def ob_vec(W, part):
+def ob_vec(W, part, fork_ifs=False, prior=False):
     cfg = config(W)
     if not W.sym:
+        if prior:
+            try:
+                S().vectorized_ltf_plan(**PRIOR)
+            except BaseException:
+                pass
         return concrete_goals(W, "vec", cfg, _GOALS["vec-" + part])
-    I, env0, env1, post, rho, st = vec_step(W, cfg)
+    I, env0, env1, post, rho, st = vec_step(W, cfg, fork_ifs, prior)
     N, fs, olap, bmin, Lmin = cfg["N"], cfg["fs"], cfg["olap"], cfg["bmin"], cfg["Lmin"]
     fi = env0["current_f"]
     if part == "step":
